@@ -128,8 +128,13 @@ def lp_cases(tier):
         # distinct instruction offsets.  (Later zero-width *events* exist only as
         # products of the peephole optimizer, which is not the assembler; the ones real
         # code contains are covered by the program/corpus strata.)
-        later = [x for x in steps if x[0] != 0]
-        later_red = [x for x in red if x[0] != 0]
+        # Update: later events with d_bytecode == 0 are not emitted by the assembler
+        # itself, but the peephole optimizer produces them from what the assembler
+        # emitted (it shrinks byte deltas to 0 when it removes unreachable code and
+        # keeps the line deltas), and real compiled code contains them (stratum Lx), so
+        # they are part of "every table found in real compiled code": enumerated.
+        later = list(steps)
+        later_red = list(red)
         for tail in (0, 2, 300):
             for first in steps:
                 yield {"k": "lp", "s": "LP", "seq": [list(first)], "tail": tail}
@@ -150,9 +155,9 @@ def n_lp_cases(tier):
         return s + s * s + (r ** 3 if tier == "thorough" else 0)
     nz = 1 if PY < (3, 9) else 0  # zero line delta allowed with d_bytecode > 0 on 3.7/3.8
     s = (len(B_ALL) + 1) * (nD - 1) + len(B_ALL) * nz
-    s2 = len(B_ALL) * (nD - 1) + len(B_ALL) * nz
+    s2 = s
     r = (len(B_RED) + 1) * (len(D_RED) - 1) + len(B_RED) * nz
-    r2 = len(B_RED) * (len(D_RED) - 1) + len(B_RED) * nz
+    r2 = r
     return 3 * (s + s * s2 + (r * r2 * r2 if tier == "thorough" else 0))
 
 
@@ -210,7 +215,7 @@ class C10(CodeMonitor):
 
     def __init__(self, tier):
         CodeMonitor.__init__(self, tier)
-        want = ("Pa", "F", "L", "Ld", "R") if tier == "quick" else None
+        want = ("Pa", "F", "L", "Ld", "Lx", "R") if tier == "quick" else None
         self._strata = [
             ("LP", lambda: lp_cases(tier), n_lp_cases(tier)),
             ("AST", lambda: ast_cases(tier), n_ast_cases(tier)),
